@@ -251,7 +251,7 @@ PROPS["C11"] = {
 }
 
 PROPS["C12"] = {
-    "drivers": [dict(MAIN, timeout=3000)],
+    "drivers": [dict(MAIN, timeout=3000), {"pkg": "providers", "overlay": "providers", "prop": "C12"}],
     "rule": "the real StoredSessionLoader over persistence.Manager and an in-memory store whose every operation (get/set/del/lock-obtain/"
             "lock-release) and every identity-provider token call first asks a deterministic scheduler which request may proceed: "
             "depth-first enumeration of the schedules of 2 concurrent requests sharing a stale session (preemption bound 3 in quick, "
